@@ -835,6 +835,13 @@ func (c *Ctx) VerifyFunction(key string) (*FuncReport, error) {
 	c.cur = run
 	before = len(c.Obls)
 	st.trace = st.trace.push("entry " + c.ShortName(key))
+	if ct != nil && ct.Opts["recovers"] != "" {
+		// `opt recovers`: the function shields its caller from panics of the code it calls (which
+		// the contracts of external libraries cannot rule out): its entry block defers a closure
+		// that calls recover(). Decided on the SSA, not by a solver.
+		c.emit(st, nil, nil, "recovers", "a-panic-of-the-called-code-is-recovered", BoolLit(defersRecover(fn)),
+			c.ShortName(key)+" defers a closure that calls recover() before it calls anything else", false)
+	}
 	// parameters
 	args := make([]Value, len(fn.Params))
 	for i, p := range fn.Params {
@@ -1554,4 +1561,39 @@ func (c *Ctx) SiteList(fn *ssa.Function) []string {
 	}
 	sort.Strings(out)
 	return out
+}
+
+// defersRecover: the entry block of fn defers, before any other call, a closure whose body calls recover().
+func defersRecover(fn *ssa.Function) bool {
+	if len(fn.Blocks) == 0 {
+		return false
+	}
+	for _, ins := range fn.Blocks[0].Instrs {
+		switch x := ins.(type) {
+		case *ssa.Defer:
+			var body *ssa.Function
+			switch f := x.Call.Value.(type) {
+			case *ssa.MakeClosure:
+				body, _ = f.Fn.(*ssa.Function)
+			case *ssa.Function:
+				body = f
+			}
+			if body == nil {
+				return false
+			}
+			for _, b := range body.Blocks {
+				for _, i2 := range b.Instrs {
+					if call, ok := i2.(*ssa.Call); ok {
+						if bi, ok := call.Call.Value.(*ssa.Builtin); ok && bi.Name() == "recover" {
+							return true
+						}
+					}
+				}
+			}
+			return false
+		case *ssa.Call, *ssa.Go:
+			return false
+		}
+	}
+	return false
 }
